@@ -18,7 +18,7 @@ def configs(ctx):
 
 def run(ctx):
     sessfam.standard_run(ctx, PID, FAMILY, PROPS, configs(ctx), quick_budget=15000, thorough_budget=250000,
-                         quick_bounds={'maxIn': 6, 'maxOut': 3}, thorough_bounds={'maxIn': 6, 'maxOut': 4},
+                         quick_bounds={'maxIn': 4, 'maxOut': 4}, thorough_bounds={'maxIn': 4, 'maxOut': 5},
                          statement='TestReqID echo, heartbeat on idle, test request on silence, disconnect on second silence, inbound cancels, timer arming, acceptor interval')
 
 
